@@ -66,7 +66,7 @@ pub fn documented_items(tag: &str) -> Result<BTreeSet<String>, String> {
 /// items the harness's own host library registers (not built-ins of roto)
 pub fn is_host_item(item: &str) -> bool {
     let Some(rest) = item.strip_prefix("function ") else {
-        return item.starts_with("method Tr.payload(");
+        return item.starts_with("method Tr.payload(") || item.starts_with("method K.to_string(");
     };
     let name = rest.split('(').next().unwrap_or("");
     ["e", "eb", "es", "mk", "val", "mkz", "eatz", "mkk", "kval"].contains(&name)
